@@ -50,6 +50,9 @@ stage S(
     in  map      um,
     in  map<ST>  ms,
     in  OUTER    built,
+    in  map<ST>[]   msa,
+    in  map<ST[]>[] mssa,
+    in  map<ST>[][] msaa,
     out int      o,
     src comp     "bin",
 )
@@ -158,6 +161,9 @@ func H_C16_invocationLoop(n int, flagKind int, splitKind int) {
 		"um":   c16Cat([]byte(`{"x":`), k, []byte(`}`)),
 		"ms":   c16Cat([]byte(`{"w":{"a":`), sa, []byte(`,"b":`), sb, []byte(`}}`)),
 		"built": json.RawMessage(c16Built),
+		"msa":   c16Cat([]byte(`[{"k1":{"a":`), sa, []byte(`,"b":`), sb, []byte(`},"sample 2":{"a":1,"b":2}},{}]`)),
+		"mssa":  c16Cat([]byte(`[{"k1":[{"a":`), sa, []byte(`,"b":`), sb, []byte(`}]}]`)),
+		"msaa":  c16Cat([]byte(`[[{"k1":{"a":`), sa, []byte(`,"b":`), sb, []byte(`}}],[]]`)),
 	}
 	// mapped (split) arguments: none, listed in declaration order (m, arr), or
 	// listed the other way round
@@ -266,6 +272,9 @@ var c16SplitParams = []struct {
 	{"ms", `{"r2":{"a":3,"b":4},"run 1":{"a":1,"b":2}}`},
 	{"s", `"text"`},
 	{"built", c16Built},
+	{"msa", `[{"k1":{"a":1,"b":2},"sample 2":{"a":3,"b":4}}]`},
+	{"mssa", `[{"k1":[{"a":1,"b":2}]}]`},
+	{"msaa", `[[{"k1":{"a":1,"b":2}}]]`},
 }
 
 // H_C16_splitShapes(p, over): parameter p of the stage is mapped: the
